@@ -528,23 +528,7 @@ class Interp(seq_detached.DetachedMixin, S.SeqRun):
         base = 'r_coll %s#%d.%s contains #%d' % (mo.ent, mo.mid, sa.name, it)
 
         def contains(tag):
-            if self.knobs.get('hook_mode') in ('modify', 'create', 'link', 'after_edit'):
-                self.op_flush()
-            h = self.handle_or_poison(mo.mid)
-            ih = self.handle_or_poison(it)
-            ok, got = self.read(base + tag, lambda: ih in getattr(h, sa.name))
-            if ok:
-                self.expect(base + tag, got, it in self.view.partners(sa, mo.mid))
-                # C12 through the public API: the other end must give the same answer
-                rev = sa.reverse
-                if rev.is_set:
-                    ok2, other = self.read(base + tag + ' [reverse end]', lambda: h in getattr(ih, rev.name))
-                else:
-                    ok2, other = self.read(base + tag + ' [reverse end]', lambda: getattr(ih, rev.name) is h)
-                if ok2 and bool(other) != bool(got):
-                    self.viol('C12', 'ends-disagree-through-api', '%s.%s' % (mo.ent, sa.name),
-                              '%s%s: %s#%d.%s says %r but the reverse end %s#%d.%s says %r'
-                              % (base, tag, mo.ent, mo.mid, sa.name, got, sa.rel, it, rev.name, other))
+            self.audit_membership(mo, sa, it, tag)
 
         contains(' (before)')
         present = it in self.view.partners(sa, mo.mid)
@@ -566,6 +550,32 @@ class Interp(seq_detached.DetachedMixin, S.SeqRun):
             self.op_flush()
             contains(' (after %s and flush)' % kind)
         return st
+
+    def audit_membership(self, mo, sa, it, tag):
+        """`item in owner.collection` against the session view and - C12 through the public API - against what
+        the other end says about the same link"""
+        base = 'r_coll %s#%d.%s contains #%d' % (mo.ent, mo.mid, sa.name, it)
+        if self.knobs.get('hook_mode') in ('modify', 'create', 'link', 'after_edit'):
+            self.op_flush()
+        h = self.handle_or_poison(mo.mid)
+        ih = self.handle_or_poison(it)
+        ok, got = self.read(base + tag, lambda: ih in getattr(h, sa.name))
+        if ok:
+            self.expect(base + tag, got, it in self.view.partners(sa, mo.mid))
+            rev = sa.reverse
+            ask = (lambda: h in getattr(ih, rev.name)) if rev.is_set else (lambda: getattr(ih, rev.name) is h)
+            ok2, other = self.read(base + tag + ' [reverse end]', ask, exp_exc=core.UnrepeatableReadError)
+            if not ok2 and not self.fault_fired_in_session:
+                # the other end complains about a concurrent change nobody made; ask once more, as a program that
+                # catches the error would: what it answers then is that end's opinion about the link
+                self.viol('C10', 'read-raised-unrepeatable', 'r_coll',
+                          '%s%s [reverse end] raised UnrepeatableReadError in a history with a single writer: %s'
+                          % (base, tag, str(other)[:200]))
+                ok2, other = self.read(base + tag + ' [reverse end, second attempt]', ask)
+            if ok2 and bool(other) != bool(got):
+                self.viol('C12', 'ends-disagree-through-api', '%s.%s' % (mo.ent, sa.name),
+                          '%s%s: %s#%d.%s says %r but the reverse end %s#%d.%s says %r'
+                          % (base, tag, mo.ent, mo.mid, sa.name, got, sa.rel, it, rev.name, other))
 
     def op_seq_probe(self, a, b, c):
         """change one link of a collection, ask the collection a question (emptiness, size, content) while the
@@ -927,18 +937,26 @@ class Interp(seq_detached.DetachedMixin, S.SeqRun):
         bystanders = []
         if others_same and r.chance(0.6):
             r.shuffle(others_same)
-            bystanders = others_same[:1 + r.below(2)]
+            bystanders = others_same[:2 + r.below(2)]
             for x in bystanders:
                 self.handle_or_poison(x.mid)
             if r.chance(0.5):
-                self._probe_coll(bystanders[-1], sa, r.below(6), r.below(1000), tag=' [bystander, first load]')
+                # a full load of the same attribute elsewhere (len / iteration) arms the batching
+                self._probe_coll(bystanders[-1], sa, (0, 3, r.below(6))[r.below(3)], r.below(1000),
+                                 tag=' [bystander, first load]')
                 bystanders = bystanders[:-1]
+                self.probe('partial_first_load_elsewhere')
         if r.chance(0.8):
             self.handle_or_poison(o.mid)
         it = ms[0] if r.chance(0.6) else ms[r.below(len(ms))]
+        shared = [m for m in ms if any(m in self.view.partners(sa, x.mid) for x in bystanders)]
+        if shared and r.chance(0.7):
+            it = shared[r.below(len(shared))]       # a member a bystander is linked to as well (many-to-many)
         owners = [x.mid for x in self.live_sorted() if self.schema.by_name[x.ent].sets()]
         ai, bi = owners.index(o.mid), self.schema.by_name[o.ent].sets().index(sa)
         k = r.below(10)
+        if sa.reverse.is_set and k < 6:
+            k = 6 + k % 3 if k >= 2 else 4          # many-to-many: mostly a pending removal, sometimes the member goes
         others = [x.mid for x in self.live_sorted(o.ent) if x.mid != o.mid and x.stored]
         if k < 4 and not sa.reverse.is_set and others:
             t = others[r.below(len(others))]
@@ -967,7 +985,12 @@ class Interp(seq_detached.DetachedMixin, S.SeqRun):
                 self._probe_coll(self.view.objs[o.mid], sa, r.below(6), r.below(1000), tag=' [again]')
         # what the bystanders and the member see afterwards (both ends of links nobody touched)
         for x in bystanders:
-            if not self.view.objs[x.mid].deleted:
+            if self.view.objs[x.mid].deleted:
+                continue
+            if r.chance(0.5) and not self.view.objs[it].deleted:
+                # a link nobody touched, asked from both ends
+                self.audit_membership(self.view.objs[x.mid], sa, it, ' [bystander, both ends]')
+            else:
                 self._probe_coll(self.view.objs[x.mid], sa, (3, 4, 0)[r.below(3)], r.below(1000), tag=' [bystander]')
         if sa.reverse.is_set and not self.view.objs[it].deleted and r.chance(0.7):
             self._probe_coll(self.view.objs[it], sa.reverse, (3, 4, 0)[r.below(3)], r.below(1000), tag=' [member side]')
